@@ -4,8 +4,10 @@ open DendroModel DendroModel.C03
 /-! Line protocol of `drv_c03`
   `step <R|U|N> <op> <args…> <tree> [<tree2>]`  →  `ok <R|U|N> <tree>` | `err <class>`
       nodes created by the operation print as `*` (their ids are not observable on the Python side)
-  `heap <prim> <args…> <tree>`                   →  `ok <shape>` | `err`
-      the pointer primitive run on the heap of `<tree>`, read back from the top-most ancestor of the old root -/
+      `resolverng <limit> <ub> <script: comma list or -> <tree>` = `resolve_polytomies(rng=<scripted rng>)`
+  `heap <prim> <args…> <tree>`                   →  `ok <shape> | <i:parent:children …>` | `err`
+      the pointer primitive run on the heap of `<tree>`, read back from the top-most ancestor of the old root, followed by the
+      parent pointer and child list of EVERY node `0 … size` (size = the id a new node gets), detached ones included -/
 
 def pBool (s : String) : Option Bool := if s == "1" then some true else if s == "0" then some false else none
 def pONat (s : String) : Option (Option Nat) := if s == "-" then some none else s.toNat?.map some
@@ -66,6 +68,8 @@ def parseOp (ws : List String) : Option (Op × T × Nat) :=
   | "collapseunweighted" :: thr :: ub :: rest =>
     one rest fun _ => do some (.collapseUnweighted (← Frac.parse thr) (← pBool ub))
   | "resolve" :: lim :: ub :: rest => one rest fun _ => do some (.resolve (← lim.toNat?) (← pBool ub))
+  | "resolverng" :: lim :: ub :: sc :: rest =>
+    one rest fun _ => do some (.resolveRng (← lim.toNat?) (← pBool ub) (← pList sc))
   | "prunesubtree" :: c :: ub :: s :: rest => one rest fun _ => do some (.pruneSubtree (← c.toNat?) (← pBool ub) (← pBool s))
   | "filterleaves" :: keep :: r :: ub :: s :: rest =>
     one rest fun _ => do some (.filterLeaves (← pList keep) (← pBool r) (← pBool ub) (← pBool s))
@@ -87,9 +91,16 @@ def top (h : Heap) : Nat → Nat → Nat
     | some p => top h f p
     | none => i
 
+/-- the complete pointer state of the nodes `0 … n-1`: `i:parent:children`, detached nodes included (what `remove_child`
+leaves in the removed node, what `Edge.collapse` leaves in the dissolved one, the emptied child list of a suppressed node) -/
+def heapDump (h : Heap) (n : Nat) : String :=
+  " ".intercalate ((List.range n).map fun i =>
+    toString i ++ ":" ++ (match h.par i with | some p => toString p | none => "-") ++ ":" ++
+      (if (h.ch i).isEmpty then "-" else ",".intercalate ((h.ch i).map toString)))
+
 def heapOut (t : T) (root : Nat) : Option Heap → String
   | none => "err"
-  | some h => "ok " ++ (Heap.readback h (t.size + 2) (top h (t.size + 2) root)).render
+  | some h => "ok " ++ (Heap.readback h (t.size + 2) (top h (t.size + 2) root)).render ++ " | " ++ heapDump h (t.size + 1)
 
 def handleHeap (ws : List String) : String :=
   let withTree (rest : List String) (f : T → Heap → Option String) : String :=
